@@ -251,6 +251,7 @@ func runClone(payload string) string {
 		p := reflect.New(t.rt)
 		v, _ := env.valueOfSx(t, vx[0])
 		p.Elem().Set(v)
+		giveCapacity(p.Elem(), 0) // empty byte slices get spare capacity, as buf[:0] has
 		return p
 	}
 	run := func() (src, dst reflect.Value, res string) {
@@ -290,6 +291,44 @@ func runClone(payload string) string {
 		}
 	}
 	return fmt.Sprintf("ok %s eq=%d indep=%d srcsame=%d shared=%d locs=%d", dstSnap, b2i(eq), b2i(indep1 && indep2), b2i(srcSnap == printValue(t, mk().Elem())), shared, len(dl))
+}
+
+// giveCapacity replaces every empty, non-nil byte slice it can set by one with spare capacity.
+func giveCapacity(v reflect.Value, depth int) {
+	if depth > 40 {
+		return
+	}
+	switch v.Kind() {
+	case reflect.Slice:
+		if v.Type().Elem().Kind() == reflect.Uint8 {
+			if !v.IsNil() && v.Len() == 0 && v.CanSet() {
+				v.Set(reflect.MakeSlice(v.Type(), 0, 8))
+			}
+			return
+		}
+		for i := 0; i < v.Len(); i++ {
+			giveCapacity(v.Index(i), depth+1)
+		}
+	case reflect.Array:
+		for i := 0; i < v.Len(); i++ {
+			giveCapacity(v.Index(i), depth+1)
+		}
+	case reflect.Struct:
+		for i := 0; i < v.NumField(); i++ {
+			giveCapacity(v.Field(i), depth+1)
+		}
+	case reflect.Ptr:
+		if !v.IsNil() {
+			giveCapacity(v.Elem(), depth+1)
+		}
+	case reflect.Interface:
+		if !v.IsNil() && v.CanSet() {
+			e := v.Elem()
+			if e.Kind() == reflect.Slice && e.Type().Elem().Kind() == reflect.Uint8 && !e.IsNil() && e.Len() == 0 {
+				v.Set(reflect.MakeSlice(e.Type(), 0, 8))
+			}
+		}
+	}
 }
 
 // storageLocs collects the addresses of the mutable storage reachable from v: backing arrays of
